@@ -53,6 +53,10 @@ WORDS = ['a', '*b*', '**c**', '`d`', '[e](f)', '[g][a]', '_h_', '\\*', 'i  ', '!
 
 def gen_doc(rng, corpus):
     r = rng.random()
+    if r < 0.18:
+        from gen import common as _G
+        return _G.inline_doc(rng).replace('<', '')
+    r = rng.random()
     if r < 0.12 and corpus:
         c = rng.choice(corpus)
         a = rng.randint(0, len(c))
